@@ -19,14 +19,15 @@ Definition find_iface (pkg name : string) : option iface_decl :=
 (* LoadTypes: defined types of the current package *)
 Definition find_type (name : string) : option type_decl := find (fun d => String.eqb (td_name d) name) (tt_types tt).
 
-(* checkImplementation: typeMethods is a map filled in order (a later method of the same name wins) *)
+(* checkImplementation: typeMethods is a map keyed by (package of an unexported name, name), filled in order (a later
+   method of the same identity wins) *)
 Definition eligible (require_ptr : bool) (m : tmethod) : bool := require_ptr || tm_value m.
 
-Definition lookup_method (td : type_decl) (require_ptr : bool) (name : string) : option tmethod :=
-  find (fun m => eligible require_ptr m && String.eqb (tm_name m) name) (rev (td_methods td)).
+Definition lookup_method (td : type_decl) (require_ptr : bool) (pkg name : string) : option tmethod :=
+  find (fun m => eligible require_ptr m && (String.eqb (tm_pkg m) pkg && String.eqb (tm_name m) name)) (rev (td_methods td)).
 
 Definition method_ok (td : type_decl) (require_ptr : bool) (im : imethod) : bool :=
-  match lookup_method td require_ptr (im_name im) with
+  match lookup_method td require_ptr (im_pkg im) (im_name im) with
   | Some tm => signatures_match (tm_sig tm) (im_sig im)
   | None => false
   end.
